@@ -413,6 +413,10 @@ func (in *inst) install(k int) {
 		}
 		lmac, rmac := net.HardwareAddr{0x02, 1, 0, 0, byte(k), 1}, net.HardwareAddr{0x02, 1, 0, 0, byte(k), 2}
 		lsub, rsub := fmt.Sprintf("sub-%d-a", k), fmt.Sprintf("sub-%d-b", k)
+		if side == "rev" { // the same two allocations, seen from the other site
+			lmac, rmac = rmac, lmac
+			lsub, rsub = rsub, lsub
+		}
 		if sc.samemac {
 			rmac = lmac
 		}
